@@ -39,6 +39,24 @@ def _scenario_index_save(root):
     return {}
 
 
+def _scenario_index_save_sparse(root):
+    """index save where only the top-level directories carry an entry (intermediate directories are implicit)"""
+    from dvc_data.index import build, md5, save
+
+    from . import env
+
+    state = env.mk_state(root, os.path.join(root, "tmp"))
+    odb = env.local_odb(os.path.join(root, "cache"), state=state, tmp_dir=os.path.join(root, "tmp"))
+    idx = build(os.path.join(root, "ws"), env.localfs())
+    idx = md5(idx, state=state)
+    for key, entry in list(idx.iteritems()):
+        if len(key) >= 2 and entry.meta and entry.meta.isdir:
+            del idx[key]
+    save(idx, odb=odb)
+    state.close()
+    return {}
+
+
 def _closed_request(src_root):
     from . import env
     from .oracle import list_store
@@ -128,6 +146,7 @@ def _scenario_add_files(root):
 SCENARIOS = {
     "stage-transfer": _scenario_stage_transfer,
     "index-save": _scenario_index_save,
+    "index-save-sparse": _scenario_index_save_sparse,
     "store-to-store": _scenario_store_to_store,
     "upload-staging": _scenario_upload_staging,
     "push-remote": _scenario_push_remote,
